@@ -100,18 +100,17 @@ def run(R):
             if info and info[0] == "bool":
                 pos, os_ = F.bool_edge_polarity(f, gsw, lab)
                 for o in os_:
-                    if o.kind == "arg":
-                        conds.add((f.local_name(o.arg), pos))
+                    if o.kind == "arg" and f.local_ty(o.arg) == "bool":
+                        conds.add(("single_result", pos))
                     if o.kind == "binop" and o.extra == "Gt":
                         conds.add(("multiple_rows", pos))
                 d = f.blocks[gsw]["term"]["discr"]
                 if d["k"] in ("copy", "move"):
-                    nm = f.local_name(d["pl"]["l"])
-                    for i, s in f.stmts():
-                        if s["k"] == "assign" and s["pl"]["l"] == d["pl"]["l"] and s["rv"]["k"] == "use" and s["rv"]["op"]["k"] in ("copy", "move"):
-                            nm = f.local_name(s["rv"]["op"]["pl"]["l"]) or nm
-                    if nm:
-                        conds.add((nm, pos))
+                    for oo in F.origins(f, d, depth=5, through_calls=False):
+                        if oo.kind == "binop" and oo.extra == "Gt":
+                            conds.add(("multiple_rows", pos))
+                        if oo.kind == "arg" and f.local_ty(oo.arg) == "bool":
+                            conds.add(("single_result", pos))
         if ("multiple_rows", True) in conds and ("single_result", False) in conds:
             R.ok("C17.once", "print|separator", "one separator, only under multiple_rows && !single_result", f.loc(after[0]))
         else:
